@@ -1036,7 +1036,8 @@ def retained_programs(fields, family, which):
 
 
 ALLPAIRS_QUICK = ("bed", "bdg", "fastq", "sizes")
-SMALL_QUICK = ("bed", "fastq", "sam", "bam")
+SMALL_QUICK = ("bed", "fastq", "bam")
+FAMILIES = ("bed", "bdg", "csv", "wig", "gfa", "fastq", "vcf0", "sam", "bam")   # one format per buffer family
 ALLPAIRS_FULL = ("bed", "fastq", "fasta2", "sizes", "gfa", "bdg", "bam")
 BIG = ("sam", "vcf0")    # 132 and 56 ordered pairs: the representatives of the kinds (sam), every pair last (vcf0)
 
@@ -1050,10 +1051,10 @@ def plan_retained(tier):
         t += [("core", "all", f, "whole") for f in ALLPAIRS_QUICK]
         t += [("core", "all", f, cs[f][0]) for f in ("bed", "fastq")]
         t += [("core", "rep", f, cs[f][0]) for f in MAIN]
-        t += [("chain", "rep", f, "whole") for f in ALL_FORMATS]
+        t += [("chain", "rep", f, "whole") for f in FAMILIES]
         t += [("small", "rep", f, "whole") for f in SMALL_QUICK]
         t += [("chain", "all", "bed", "whole")]
-        return t, [], 14
+        return t, [], 16
     auto = lambda f: "kinds" if f in BIG else "auto"
     t += [("core", auto(f), f, "whole") for f in ALL_FORMATS]
     t += [("core", auto(f), f, cs[f][0]) for f in ALL_FORMATS]
@@ -1267,7 +1268,7 @@ def run(tier="quick", seed=0):
                     "to either, chains of 3 replaces - over ordered pairs / triples of replaceable fields; every retained "
                     "table gets the full observation after the last op.  distinct = distinct (format, read mode, "
                     "program); non-trivial = program of length >= 1",
-                    budget_s=(62 if tier == "quick" else 585))
+                    budget_s=(66 if tier == "quick" else 585))
     import logging
     logging.getLogger("bionumpy").setLevel(logging.ERROR)   # the library logs a warning per read/write
     tasks, samples = plan(tier)
